@@ -63,30 +63,45 @@ def optional_flags(mod) -> Dict[str, bool]:
 DT = datetime(2001, 2, 3, 4, 5, 6, 789000, tzinfo=timezone.utc)
 
 
-def sample_value(cls, fname: str, meta, hint, depth: int):
-    """A deterministic non-default value for one field, from metadata and type hints only."""
+SIGNED = ("int32", "int64", "sint32", "sint64", "sfixed32", "sfixed64")
+SAMPLE_VARIANTS = ("base", "zero", "neg")
+
+
+def sample_value(cls, fname: str, meta, hint, depth: int, variant: str = "base"):
+    """A deterministic value for one field, from metadata and type hints only.
+    base: non-default values; zero: explicit defaults; neg: negative / lowest values."""
     def elem(pt: str, h):
         if pt in ("int32", "int64", "uint32", "uint64", "sint32", "sint64", "fixed32", "fixed64", "sfixed32", "sfixed64"):
+            if variant == "zero":
+                return 0
+            if variant == "neg":
+                return -1 if pt in SIGNED else 1
             return 7
         if pt in ("float", "double"):
-            return 1.5
+            return 0.0 if variant == "zero" else (-1.5 if variant == "neg" else 1.5)
         if pt == "bool":
-            return True
+            return variant == "base"
         if pt == "string":
-            return "s"
+            return "" if variant == "zero" else "s"
         if pt == "bytes":
-            return b"b"
+            return b"" if variant == "zero" else b"b"
         if pt == "enum":
-            return h.try_value(1) if isinstance(h, type) else 1
+            if not isinstance(h, type):
+                return 0 if variant == "zero" else 1
+            if variant == "zero":
+                return h.try_value(0)
+            if variant == "neg":
+                return h.try_value(min(int(x) for x in h.__members__.values()))
+            return h.try_value(1)
         if pt == "message":
             if h is datetime:
-                return DT
+                return DT if variant != "zero" else datetime(1970, 1, 1, tzinfo=timezone.utc)
             if h is timedelta:
-                return timedelta(seconds=3, microseconds=500)
+                return timedelta(0) if variant == "zero" else (timedelta(seconds=-3, microseconds=-500) if variant == "neg" else timedelta(seconds=3, microseconds=500))
             if meta.wraps:
                 return elem(meta.wraps, None)
             if isinstance(h, type) and issubclass(h, betterproto.Message):
-                return sample_instance(h, depth - 1) if depth > 0 else h()
+                return sample_instance(h, depth - 1, variant) if depth > 0 else h()
         return None
 
     origin = typing.get_origin(hint)
@@ -110,7 +125,7 @@ def sample_value(cls, fname: str, meta, hint, depth: int):
     return [v, v] if origin is list else v
 
 
-def sample_instance(cls, depth: int = 2):
+def sample_instance(cls, depth: int = 2, variant: str = "base"):
     hints = cls._type_hints()
     kwargs = {}
     groups_done = set()
@@ -119,7 +134,7 @@ def sample_instance(cls, depth: int = 2):
         if meta.group:
             if meta.group in groups_done:
                 continue
-        v = sample_value(cls, f.name, meta, hints[f.name], depth)
+        v = sample_value(cls, f.name, meta, hints[f.name], depth, variant)
         if v is None:
             continue
         if meta.group:
@@ -160,16 +175,19 @@ def check_program(files: Dict[str, str], modules: List[str], label: List[str], t
                 for cname in desc["messages"]:
                     cls = getattr(mod, cname)
                     try:
-                        inst = sample_instance(cls)
-                        enc = bytes(inst).hex()
-                        try:
-                            js = inst.to_json()
-                        except TypeError:
-                            # bytes wrappers / bytes map values: a JSON finding of C04/C05,
-                            # identical under every option; JSON is then not compared
-                            js = None
-                            t.inc("json_unavailable_recorded")
-                        beh[cname] = (enc, js, bytes(cls()).hex())
+                        encs, jss = [], []
+                        for variant in SAMPLE_VARIANTS:
+                            inst = sample_instance(cls, 2, variant)
+                            encs.append(bytes(inst).hex())
+                            try:
+                                jss.append(inst.to_json())
+                            except TypeError:
+                                # bytes wrappers / bytes map values: a JSON finding of C04/C05,
+                                # identical under every option; JSON is then not compared
+                                jss = None
+                                t.inc("json_unavailable_recorded")
+                                break
+                        beh[cname] = ("|".join(encs), None if jss is None else "|".join(jss), bytes(cls()).hex())
                     except Exception as e:
                         beh[cname] = ("ERR", f"{type(e).__name__}: {e}"[:200], "")
                 if vname == "direct":
